@@ -252,6 +252,14 @@ func argDamage[T comparable](vs, before []T, str func(T) string) string {
 	return ""
 }
 
+// ownArgs prepares a slice the container itself returned (Values()) for being passed back in: the element tables'
+// slices have zeroed spare capacity, a returned slice may legitimately have anything there, so what lies beyond its
+// length is cleared first (the slice is the caller's now) and argDamage's reading of the spare capacity stays exact.
+func ownArgs[T any](vs []T) []T {
+	clear(vs[len(vs):cap(vs)])
+	return vs
+}
+
 // sameElem / sameSeq: element identity as the oracles mean it. For floats == conflates -0 with +0 (and
 // NaN with nothing), so float elements are compared through their exact rendering.
 func sameElem[T comparable](d *Dom[T], a, b T) bool {
